@@ -4,10 +4,11 @@ package main
 
 import (
 	"fmt"
-	"os"
 	"go/constant"
 	"go/types"
 	"math/big"
+	"os"
+	"regexp"
 	"strconv"
 	"strings"
 
@@ -15,15 +16,15 @@ import (
 )
 
 type Env struct {
-	fr       *Frame
-	vars     map[string]Val
-	cur, old *State
-	at       *ssa.BasicBlock
-	phiSubst map[*ssa.Phi]Val
-	pkg      *types.Package
-	depth    int
+	fr        *Frame
+	vars      map[string]Val
+	cur, old  *State
+	at        *ssa.BasicBlock
+	phiSubst  map[*ssa.Phi]Val
+	pkg       *types.Package
+	depth     int
 	callStack []string
-	bound    map[string]bool // names bound by quantifiers / let / spec-function parameters (never program variables)
+	bound     map[string]bool // names bound by quantifiers / let / spec-function parameters (never program variables)
 }
 
 func (e *Env) clone() *Env {
@@ -222,17 +223,22 @@ func (v *Verifier) evalSpec(env *Env, e SExpr) Val {
 		}
 		var binders []string
 		var ranges []Term
-		nbound := 0
-		defer func() { c.qdepth -= nbound }()
+		// Bound variables are first given unique placeholders; once the whole quantified formula is built they are
+		// renamed to <name>!q<h>, h being one more than the largest index of a bound variable inside it. The name of
+		// a bound variable then depends only on the formula below its binder, so the same spec expression yields the
+		// same term wherever it is evaluated (z3 identifies quantifiers only if their variable names agree), and an
+		// inner binder (smaller h) can never capture an outer variable (larger h).
+		type ph struct{ tmp, base string }
+		var phs []ph
 		for _, b := range x.Vars {
 			t := v.resolveType(env.pkg, b.Type)
 			srt := scalarSort(t)
+			c.fresh++
+			tmp := fmt.Sprintf("%s!qP%d$", b.Name, c.fresh)
+			phs = append(phs, ph{tmp, b.Name})
 			if kindOf(t) == KSlice {
 				// a slice-typed bound variable is three integers (backing array, offset, length); cap == len
-				base := fmt.Sprintf("%s!q%d", b.Name, c.qdepth)
-				c.qdepth++
-				nbound++
-				sv := Val{K: KSlice, T: t, A: sym(base + ".ref"), Off: sym(base + ".off"), Len: sym(base + ".len"), Cap: sym(base + ".len")}
+				sv := Val{K: KSlice, T: t, A: sym(tmp + ".ref"), Off: sym(tmp + ".off"), Len: sym(tmp + ".len"), Cap: sym(tmp + ".len")}
 				binders = append(binders, "("+sv.A+" Int)", "("+sv.Off+" Int)", "("+sv.Len+" Int)")
 				ranges = append(ranges, and(le("0", sv.A), le("0", sv.Off), le("0", sv.Len)))
 				ne.vars[b.Name] = sv
@@ -241,16 +247,11 @@ func (v *Verifier) evalSpec(env *Env, e SExpr) Val {
 			if k := kindOf(t); k != KInt && k != KBool && k != KRef && k != KStr {
 				encFail("spec: quantified variable %s of unsupported type %s", b.Name, b.Type)
 			}
-			// bound variables are named by nesting depth: the same spec expression evaluated twice in the same
-			// state yields the same term (z3 compares quantifiers including their variable names)
-			nm := fmt.Sprintf("%s!q%d", b.Name, c.qdepth)
-			c.qdepth++
-			nbound++
-			binders = append(binders, "("+sym(nm)+" "+srt+")")
-			ne.vars[b.Name] = Val{K: kindOf(t), T: t, A: sym(nm)}
+			binders = append(binders, "("+sym(tmp)+" "+srt+")")
+			ne.vars[b.Name] = Val{K: kindOf(t), T: t, A: sym(tmp)}
 			if kindOf(t) == KInt {
 				if bt, ok := t.Underlying().(*types.Basic); ok && bt.Kind() != types.Int && bt.Kind() != types.Int64 {
-					ranges = append(ranges, rangeAssump(t, sym(nm)))
+					ranges = append(ranges, rangeAssump(t, sym(tmp)))
 				}
 			}
 		}
@@ -284,22 +285,38 @@ func (v *Verifier) evalSpec(env *Env, e SExpr) Val {
 				pat += " :pattern (" + strings.Join(gs, " ") + ")"
 			}
 		}
+		var res string
 		if x.Forall {
 			b := implies(and(ranges...), body)
 			if pat != "" {
 				b = "(! " + b + pat + ")"
 			}
-			return Val{K: KBool, A: "(forall (" + strings.Join(binders, " ") + ") " + b + ")"}
+			res = "(forall (" + strings.Join(binders, " ") + ") " + b + ")"
+		} else {
+			b := and(append(ranges, body)...)
+			if pat != "" {
+				b = "(! " + b + pat + ")"
+			}
+			res = "(exists (" + strings.Join(binders, " ") + ") " + b + ")"
 		}
-		b := and(append(ranges, body)...)
-		if pat != "" {
-			b = "(! " + b + pat + ")"
+		h := 0
+		for _, m := range boundIdxRe.FindAllStringSubmatch(res, -1) {
+			var k int
+			fmt.Sscanf(m[1], "%d", &k)
+			if k+1 > h {
+				h = k + 1
+			}
 		}
-		return Val{K: KBool, A: "(exists (" + strings.Join(binders, " ") + ") " + b + ")"}
+		for _, p := range phs {
+			res = strings.ReplaceAll(res, p.tmp, fmt.Sprintf("%s!q%d", p.base, h))
+		}
+		return Val{K: KBool, A: res}
 	}
 	encFail("spec: cannot evaluate %s", e)
 	return Val{}
 }
+
+var boundIdxRe = regexp.MustCompile(`!q(\d+)`)
 
 func (v *Verifier) isLocalName(env *Env, name string) bool {
 	if env.fr == nil || env.at == nil {
@@ -421,10 +438,10 @@ func (v *Verifier) localName(env *Env, name string) (Val, bool) {
 		}
 	}
 	type cand struct {
-		b      *ssa.BasicBlock
-		pos    int // instruction index in block
-		phi    *ssa.Phi
-		dref   *ssa.DebugRef
+		b    *ssa.BasicBlock
+		pos  int // instruction index in block
+		phi  *ssa.Phi
+		dref *ssa.DebugRef
 	}
 	var best *cand
 	better := func(c *cand) bool {
